@@ -487,6 +487,23 @@ def pipeline(rep, prog, cm):
             for v in walk(lk["body"]):
                 if v.get("k") == "Var" and v.get("did") == a0["ref"]["did"] and isinstance(v.get("init"), dict) and "global_face_id_" in render(v["init"]) and "6" in render(v["init"]):
                     box_ok = True
+    # every candidate is examined: nothing leaves the loops over the nodes / candidate faces early
+    loops_ = [p_ for p_, _s, _c in li.ancestors(n) if p_.get("k") in ("ForStmt", "WhileStmt", "CXXForRangeStmt", "DoStmt")]
+    early = []
+    for lp in loops_:
+        for x in walk(lp.get("body") or {}, into_lambdas=False):
+            if x.get("k") in ("ReturnStmt", "GotoStmt"):
+                early.append((x, lp))
+            elif x.get("k") == "BreakStmt":
+                near = li.enclosing(x, ("ForStmt", "WhileStmt", "CXXForRangeStmt", "DoStmt", "SwitchStmt"))
+                if near is lp:
+                    early.append((x, lp))
+    if early:
+        x, lp = early[0]
+        rep.violation("C06.lookup-pipeline", prog, lk, x, "the scan of the candidates is left early",
+                      "%s leaves the loop at line %s with '%s' (line %s): the candidates (faces of the voxel / nodes of the cell) that come after the one being examined are never handed to the narrow phase, although they may lie within the cut-off - which contacts are found depends on the order in which the faces were stored in the voxel" % (lk["qn"], lp.get("l"), x.get("k").replace("Stmt", "").lower(), x.get("l")))
+    else:
+        rep.ok("C06.lookup-pipeline", prog, lk, loops_[0] if loops_ else n, "no break / return leaves the %d loops around the narrow phase: every node and every candidate face is examined" % len(loops_))
     if not extra and box_ok:
         rep.ok("C06.lookup-pipeline", prog, lk, n, "narrow phase reached under: node used, different cell, aabb check on box global_face_id_*6 (+ documented curvature / normal tests)")
     else:
